@@ -18,6 +18,9 @@ var tokRe = regexp.MustCompile("[A-Za-z_][A-Za-z0-9_]*|\\d+|\"(?:[^\"\\\\\\n]|\\
 // independent of the lexer under test); concatenating them gives the input.
 func Tokens(src string) []string { return tokRe.FindAllString(src, -1) }
 
+// Vocab is the token vocabulary used for substitutions and for the exhaustive tiny-input enumeration.
+var Vocab = vocab
+
 var vocab = []string{
 	"import", "var", "func", "return", "if", "else", "switch", "case", "default", "for", "range", "break", "continue", "nil",
 	"len", "print", "input", "copy", "itoa", "exists", "read", "write", "panic", "bool", "int", "string", "error", "true", "false",
